@@ -12,9 +12,9 @@ Theorem C17_source_facts :
   inner_table = inner_table_src /\ ctx_table = ctx_table_src /\
   ctx_clone_src = [("NoContext", false); ("CArc_c_void", true)] /\
   snippets_src = ["if (self->drop_fn && self->instance) self->drop_fn(self->instance);";
-                  "ret.instance = self->clone_fn(self->instance);";
+                  "if (self->clone_fn) ret.instance = self->clone_fn(self->instance);";
                   "if (self->drop_fn && self->instance) self->drop_fn(self->instance);"] /\
-  vt_mode_src = 3 /\ clash_mode_src = true.
+  vt_mode_src = 3 /\ clash_mode_src = true /\ cpp_release_src = true.
 Proof. repeat split; reflexivity. Qed.
 Print Assumptions C17_source_facts.
 
@@ -80,38 +80,39 @@ Proof. exact variant_conflict_witness. Qed.
 Print Assumptions C17_variant_conflict_witness.
 
 (* C++ mode: every function of every vtable of a group, and of every single-trait object, gets a member function that forwards to
-   that vtable's slot with the container (by address, or by value for consuming entries) and its own arguments in order *)
+   that vtable's slot with the container (by address, or by value for consuming entries) and its own arguments in order; a consuming
+   member function clones the context before the call, nulls out the moved-from container and releases the clone afterwards *)
 Theorem C17_cpp_group : forall vs g t v fi f,
   In t (g_traits g) -> find_vtbl vs t = Some v -> nth_error (v_funcs v) fi = Some f -> f_calls f = true ->
-  exists w, In (t, fi, w) (gen_cpp_group vs g) /\
-            trace w = (if f_moves f then [EvClone; EvCall ("vtbl_" ++ lower t) (f_name f) false (map snd (f_args f)); EvForget]
+  exists w, In (t, fi, w) (gen_cpp_group cpp_release_src vs g) /\
+            trace w = (if f_moves f then [EvClone; EvCall ("vtbl_" ++ lower t) (f_name f) false (map snd (f_args f)); EvForget; EvDropClone]
                        else [EvCall ("vtbl_" ++ lower t) (f_name f) true (map snd (f_args f))]) /\
             w_params w = f_args f /\
             returns w = (if String.eqb (trim_s (f_ret f)) "void" then RetVoid
                          else if String.eqb (trim_s (f_ret f)) "CGlueC" then RetWrapped (map (fun t => "vtbl_" ++ lower t) (g_traits g)) else RetCall).
 Proof.
-  intros vs g t v fi f Ht Hv Hf Hc. destruct (cpp_group_serves vs g t v fi f Ht Hv Hf Hc) as [w [H1 [H2 [H3 H4]]]].
+  intros vs g t v fi f Ht Hv Hf Hc. destruct (cpp_group_serves cpp_release_src vs g t v fi f Ht Hv Hf Hc) as [w [H1 [H2 [H3 H4]]]].
   exists w. repeat split; try assumption. rewrite H2. unfold expected_trace_cpp, call_ev. destruct (f_moves f); reflexivity.
 Qed.
 Print Assumptions C17_cpp_group.
 
 Theorem C17_cpp_obj : forall v fi f,
   nth_error (v_funcs v) fi = Some f -> f_calls f = true ->
-  exists w, In (v_name v, fi, w) (gen_cpp_obj v) /\
-            trace w = (if f_moves f then [EvClone; EvCall "vtbl" (f_name f) false (map snd (f_args f)); EvForget]
+  exists w, In (v_name v, fi, w) (gen_cpp_obj cpp_release_src v) /\
+            trace w = (if f_moves f then [EvClone; EvCall "vtbl" (f_name f) false (map snd (f_args f)); EvForget; EvDropClone]
                        else [EvCall "vtbl" (f_name f) true (map snd (f_args f))]) /\
             w_params w = f_args f.
 Proof.
-  intros v fi f Hf Hc. destruct (cpp_obj_serves v fi f Hf Hc) as [w [H1 [H2 [H3 _]]]].
+  intros v fi f Hf Hc. destruct (cpp_obj_serves cpp_release_src v fi f Hf Hc) as [w [H1 [H2 [H3 _]]]].
   exists w. repeat split; try assumption. rewrite H2. unfold expected_trace_cpp, call_ev. destruct (f_moves f); reflexivity.
 Qed.
 Print Assumptions C17_cpp_obj.
 
-(* the defect of the C++ generator (known finding F-C17-cpp-leak): the context clone taken for a consuming call is never released *)
-Theorem C17_cpp_clone_never_released : forall f vtbl prefix this vtbls,
-  ~ In EvDropClone (trace (cpp_wrapper f vtbl prefix this vtbls)).
-Proof. exact cpp_clone_never_released. Qed.
-Print Assumptions C17_cpp_clone_never_released.
+(* the repaired defect F-C17-cpp-leak: the generator as found never released that clone *)
+Theorem C17_cpp_clone_never_released_before_fix : forall f vtbl prefix this vtbls,
+  ~ In EvDropClone (trace (cpp_wrapper false f vtbl prefix this vtbls)).
+Proof. exact cpp_clone_never_released_before_fix. Qed.
+Print Assumptions C17_cpp_clone_never_released_before_fix.
 
 (* non-vacuity: a concrete header with a group of two traits that share a function name, two variants and a consuming entry *)
 Example C17_example :
